@@ -1,105 +1,186 @@
-(* C13/Properties.v — the property theorems only.  Each is closed by [exact] of a lemma from
+(* C13/Properties.v — the property theorems only.  Each is closed by [exact]/[apply] of a lemma from
    Proofs.v (or by computation for witnesses) and followed by Print Assumptions.
 
-   [Repaired] is the behaviour after fixes/C13_persist_before_swap.patch plus an atomic Set;
-   [Defective] is pkg/configmgr as it is today.  The full theorems are about [Repaired]; the
-   [_refuted] theorems exhibit histories on which [Defective] violates them. *)
+   The model has one [variant] flag per recorded defect.  [fixed var] = the two defects repaired in /repo
+   (1761ed1 persist-before-swap, 61c97e1 atomic Set) are repaired; /repo HEAD is [FrrDefect] (fixed, but a
+   failed routing-daemon reload is not followed by a reload of the running configuration), [Repaired] has
+   that repaired too (fixes/C13_frr_restore.patch).  The theorems are stated for EVERY fixed variant, so they
+   hold of HEAD; the one clause HEAD violates — the daemon after a reload that failed half-way — carries the
+   explicit hypothesis [v_frr_restore var = true \/ f_reload f <> 2] and has a [_refuted] witness for HEAD. *)
 From OV Require Import Common.Base C13.Model C13.Proofs.
 
-(* reachable states of the repaired manager, from any initial running configuration, under any
-   registry, any pre-commit guard and any history (incl. every fault plan) satisfy the invariant *)
+Theorem C13_head_is_fixed : fixed FrrDefect /\ fixed Repaired.
+Proof. split; [apply fixed_head | apply fixed_repaired]. Qed.
+Print Assumptions C13_head_is_fixed.
+
+(* reachable states, from any initial running configuration (running and startup one object or two), under
+   any registry, any pre-commit guard and any history incl. every fault plan: at most one session, it owns
+   the lock, its configuration OBJECT is neither the running nor the startup object, its candidate agrees
+   with running outside the paths it set *)
 Theorem C13_reachable_invariant :
-  forall reg g r ops, Inv (run Repaired reg g (init_state r) ops).
-Proof. intros. apply inv_run, inv_init. Qed.
+  forall var reg g r shared ops, fixed var -> Inv (run var reg g (init_state_gen r shared) ops).
+Proof. intros. apply inv_run, inv_init. assumption. Qed.
 Print Assumptions C13_reachable_invariant.
 
-(* ATOMIC.  Whatever the state (reachable or not), whatever fails — session lookup, dependency
-   resolution, pre-commit validation, the k-th handler, routing-daemon test or reload, the startup
-   file write — a Commit that does not return ok leaves running, startup, the startup file, the
-   version files and the version list exactly as they were; the only state change is idle expiry and
-   the refreshed activity stamp of the session; and the Rollback calls are exactly the successful
-   Apply calls in reverse order. *)
+(* ATOMIC.  Whatever the state (reachable or not), whatever fails — session lookup, dependency resolution,
+   pre-commit validation (MSS-clamp parent MTU, colliding subscriber groups), a missing handler, the k-th
+   Apply, routing-daemon test or reload, the startup file write — and whatever the Rollback calls return:
+   a Commit that does not return ok leaves running, startup, the startup file, the version files and the
+   version list exactly as they were; apart from the daemon field the state is [touch_state (expire st) id]
+   (idle expiry + the session's activity stamp); the recorded Rollback calls are exactly the successful
+   Apply calls in reverse order; and the routing daemon is either untouched or, when a reload had been
+   attempted, back on the running configuration — the last clause under the hypothesis that excludes the
+   known finding (reload failed after changing the daemon and the variant does not restore). *)
 Theorem C13_atomic :
-  forall reg g st id f st' r evs,
-  do_commit Repaired reg g st id f = (st', r, evs) -> r <> ROk ->
-  st' = touch_state (expire st) id /\ persisted st' = persisted st /\
+  forall var reg g st id f st' r evs, fixed var ->
+  do_commit var reg g st id f = (st', r, evs) -> r <> ROk ->
+  (exists d, st' = set_frr (touch_state (expire st) id) d) /\ persisted st' = persisted st /\
+  (v_frr_restore var = true \/ f_reload f <> 2%nat ->
+     frr st' = frr st \/ (In EFrrReload evs /\ frr st' = Some (running st))) /\
   rolled evs = rev (applied_ok evs).
 Proof. exact atomic. Qed.
 Print Assumptions C13_atomic.
 
-(* The same holds of the code as it is today ([Defective], and any other variant) for every failure point
-   except the two persistence failures. *)
-Theorem C13_atomic_today_partial :
+(* Also for the variants before the fixes, for every failure point except reload and persistence failures. *)
+Theorem C13_atomic_any_variant :
   forall var reg g st id f st' r evs,
   do_commit var reg g st id f = (st', r, evs) ->
-  r <> ROk -> r <> RStartupSave -> r <> RVersionSave ->
+  r <> ROk -> r <> RStartupSave -> r <> RVersionSave -> r <> RFrrReload ->
   st' = touch_state (expire st) id /\ rolled evs = rev (applied_ok evs).
 Proof. exact commit_early_failure. Qed.
-Print Assumptions C13_atomic_today_partial.
+Print Assumptions C13_atomic_any_variant.
 
-(* FRAME.  In every reachable state a successful Commit publishes the session's candidate to
-   running, startup and the startup file, and the new running configuration differs from the
-   previous one only at leaves whose path was set in this session and at containers that are
-   prefixes of such paths; nothing is rolled back. *)
+(* ROLLBACK ORDER as a statement about the call stream.  rollbackChanges is transcribed literally (index
+   loop from len-1 down to 0, skip when the handler lookup fails, the error of Rollback dropped); for every
+   applied list whose elements have a handler — which the apply loop guarantees — the stream of Rollback
+   calls, successful or not, is the applied list reversed, and it contains no Apply call. *)
+Theorem C13_rollback_stream :
+  forall reg applied k, Forall (has_h reg) applied ->
+  rolled (rollback_evs reg applied k) = rev (map ckey applied) /\
+  applied_ok (rollback_evs reg applied k) = [].
+Proof. exact rollback_evs_spec. Qed.
+Print Assumptions C13_rollback_stream.
+Theorem C13_apply_stream :
+  forall reg chs k applied outcome evs need,
+  apply_loop reg chs 0 k [] [] false = (applied, outcome, evs, need) ->
+  applied_ok evs = map ckey applied /\ rolled evs = [] /\ Forall (has_h reg) applied.
+Proof. intros. eapply apply_loop_spec; eauto. Qed.
+Print Assumptions C13_apply_stream.
+
+(* FRAME.  In every reachable state a successful Commit publishes the session's candidate to running and
+   startup, the scrubbed candidate to the startup file, leaves the daemon alone or on the new running
+   configuration, and the new running configuration differs from the previous one only at leaves whose path
+   was set in this session and at containers that are prefixes of such paths; nothing is rolled back. *)
 Theorem C13_frame :
-  forall reg g r ops id f st' evs,
-  let st := run Repaired reg g (init_state r) ops in
-  do_commit Repaired reg g st id f = (st', ROk, evs) ->
+  forall var reg g r shared ops id f st' evs, fixed var ->
+  let st := run var reg g (init_state_gen r shared) ops in
+  do_commit var reg g st id f = (st', ROk, evs) ->
   exists s, find_session (sessions (expire st)) id = Some s /\ s_changes s <> [] /\
-    running st' = s_cand s /\ startup st' = s_cand s /\ sfile st' = Some (s_cand s) /\
+    running st' = s_cand s /\ startup st' = s_cand s /\ sfile st' = Some (scrub g (s_cand s)) /\
+    (frr st' = frr st \/ frr st' = Some (running st')) /\
     (forall p, ~ In p (map c_path (s_changes s)) -> get_leaf (running st') p = get_leaf (running st) p) /\
     (forall c, has_cont (running st) c = true -> has_cont (running st') c = true) /\
     (forall c, has_cont (running st') c = true -> has_cont (running st) c = true \/
                exists p, In p (map c_path (s_changes s)) /\ is_prefix c p) /\
     rolled evs = [].
-Proof. intros reg g r ops id f st' evs st H. eapply frame; eauto. apply inv_run, inv_init. Qed.
+Proof. intros var reg g r shared ops id f st' evs HV st H. eapply frame; eauto. apply inv_run, inv_init; auto. Qed.
 Print Assumptions C13_frame.
 
-(* ISOLATION.  In every reachable state the only operation that changes running, startup, the
-   startup file, the version files or the version list is a Commit that returns ok: candidate edits
-   (Set), Create, Close, Delete, Rollback-to-version, the passing of time and failed commits do not. *)
+(* ... and exactly: the previous running configuration with the session's Sets replayed in order *)
+Theorem C13_commit_publishes_replay :
+  forall var reg g r shared ops id f st' evs, fixed var ->
+  let st := run var reg g (init_state_gen r shared) ops in
+  do_commit var reg g st id f = (st', ROk, evs) ->
+  exists s, find_session (sessions (expire st)) id = Some s /\
+            running st' = replay reg (running st) (s_changes s).
+Proof.
+  intros var reg g r shared ops id f st' evs HV st H.
+  eapply commit_publishes_replay; eauto; [apply inv_run, inv_init; auto | apply inv2_run; [auto | apply inv_init | apply inv2_init]].
+Qed.
+Print Assumptions C13_commit_publishes_replay.
+
+(* ISOLATION.  In every reachable state the only operation that changes running, startup, the startup
+   file, the version files or the version list is a Commit that returns ok, and the only operation that
+   touches the routing daemon is a Commit. *)
 Theorem C13_isolation :
-  forall reg g r ops o st' res evs,
-  let st := run Repaired reg g (init_state r) ops in
-  step Repaired reg g st o = (st', res, evs) ->
-  persisted st' <> persisted st -> exists id f, o = OCommit id f /\ res = ROk.
-Proof. intros reg g r ops o st' res evs st H. eapply isolation; eauto. apply inv_run, inv_init. Qed.
+  forall var reg g r shared ops o st' res evs, fixed var ->
+  let st := run var reg g (init_state_gen r shared) ops in
+  step var reg g st o = (st', res, evs) ->
+  (persisted st' <> persisted st -> exists id f, o = OCommit id f /\ res = ROk) /\
+  (frr st' <> frr st -> exists id f, o = OCommit id f).
+Proof. intros var reg g r shared ops o st' res evs HV st H. eapply isolation; eauto. apply inv_run, inv_init; auto. Qed.
 Print Assumptions C13_isolation.
 
-(* a Set in particular is invisible in running *)
+(* a Set writes through the session's configuration object; in a reachable state no other slot holds that
+   object, so running and startup do not change *)
 Theorem C13_set_invisible :
-  forall reg g r ops id p v vf st' res,
-  let st := run Repaired reg g (init_state r) ops in
-  do_set Repaired reg st id p v vf = (st', res) -> running st' = running st.
+  forall var reg g r shared ops id p v vf st' res, fixed var ->
+  let st := run var reg g (init_state_gen r shared) ops in
+  do_set var reg st id p v vf = (st', res) -> running st' = running st /\ startup st' = startup st.
 Proof.
-  intros reg g r ops id p v vf st' res st H.
-  eapply inv_set in H; [apply H | apply inv_run, inv_init].
+  intros var reg g r shared ops id p v vf st' res HV st H.
+  eapply inv_set in H; [apply H | auto | apply inv_run, inv_init; auto].
 Qed.
 Print Assumptions C13_set_invisible.
 
-(* SINGLE LOCK.  In every reachable state there is at most one candidate session, it is the lock
-   owner, and without a session the lock is free. *)
+(* SINGLE LOCK / NO SHARING.  In every reachable state there is at most one candidate session, it is the
+   lock owner, without a session the lock is free, and the session's object is neither running nor startup. *)
 Theorem C13_single_lock :
-  forall reg g r ops,
-  let st := run Repaired reg g (init_state r) ops in
+  forall var reg g r shared ops, fixed var ->
+  let st := run var reg g (init_state_gen r shared) ops in
   (forall s1 s2, In s1 (sessions st) -> In s2 (sessions st) -> s1 = s2) /\
   (forall s, In s (sessions st) -> lock st = Some (s_id s)) /\
-  (sessions st = [] -> lock st = None).
-Proof. intros. apply single_lock, inv_run, inv_init. Qed.
+  (sessions st = [] -> lock st = None) /\
+  (forall s, In s (sessions st) -> s_oid s <> running_oid st /\ s_oid s <> startup_oid st).
+Proof. intros. apply single_lock, inv_run, inv_init; auto. Qed.
 Print Assumptions C13_single_lock.
 
-(* Create is refused exactly while the lock is held (after idle expiry) and a granted session starts
-   as a copy of running with no changes *)
 Theorem C13_create_refused :
   forall st o, lock (expire st) = Some o -> do_create st = (expire st, RLocked).
 Proof. exact create_refused. Qed.
 Print Assumptions C13_create_refused.
+(* a granted session is a fresh object holding a copy of running, with no changes *)
 Theorem C13_create_granted :
   forall st st' id, do_create st = (st', RId id) ->
   lock (expire st) = None /\ lock st' = Some id /\ id = (next_id st + 1)%N /\
-  exists s, In s (sessions st') /\ s_id s = id /\ s_cand s = running st /\ s_changes s = [].
+  exists s, In s (sessions st') /\ s_id s = id /\ s_cand s = running st /\ s_changes s = [] /\
+            s_oid s = (next_oid st + 1)%N.
 Proof. exact create_granted. Qed.
 Print Assumptions C13_create_granted.
+
+(* IDLE EXPIRY (conf.go:817-832).  Every API call first expires sessions idle for 15 min or longer.  In every
+   reachable state: expiry touches no datastore and not the daemon; sessions that are not idle leave the
+   whole state unchanged; an idle session disappears together with its lock, the next Create is granted and
+   every call naming the expired session is refused. *)
+Theorem C13_idle_expiry :
+  forall var reg g r shared ops, fixed var ->
+  let st := run var reg g (init_state_gen r shared) ops in
+  (persisted (expire st) = persisted st /\ frr (expire st) = frr st) /\
+  ((forall s, In s (sessions st) -> (s_idle s <? idle_limit)%N = true) -> expire st = st) /\
+  (forall s, In s (sessions st) -> (s_idle s <? idle_limit)%N = false ->
+     sessions (expire st) = [] /\ lock (expire st) = None /\
+     snd (do_create st) = RId (next_id st + 1)%N /\
+     forall id, (forall p v vf, do_set var reg st id p v vf = (expire st, RNoSession)) /\
+                (forall f, do_commit var reg g st id f = (expire st, RNoSession, [])) /\
+                do_close st id = (expire st, RNoSession) /\ do_delete st id = (expire st, RNoSession)).
+Proof.
+  intros var reg g r shared ops HV st. assert (HI : Inv st) by (apply inv_run, inv_init; auto).
+  split; [apply expire_persisted|]. split; [apply expire_alive|].
+  intros s Hin Ha. destruct (expire_idle _ _ HI Hin Ha) as [A B].
+  repeat split; auto.
+  - eapply expired_create; eauto.
+  - eapply expired_refused; eauto.
+  - eapply expired_refused; eauto.
+  - eapply (expired_refused var reg g); eauto.
+  - eapply (expired_refused var reg g); eauto.
+Qed.
+Print Assumptions C13_idle_expiry.
+Theorem C13_set_touches :
+  forall var reg st id p v vf st' r,
+  do_set var reg st id p v vf = (st', r) -> r <> RNoSession ->
+  forall s, In s (sessions st') -> s_id s = id -> s_idle s = 0%N.
+Proof. exact set_touches. Qed.
+Print Assumptions C13_set_touches.
 
 (* ---------------------------------------------------------------- witnesses *)
 (* registry: 0 = a.<*>.m (int leaf under a map entry), 1 = b.e (bool leaf under a pointer, reload) *)
@@ -111,41 +192,75 @@ Definition ex_q : path := [1; 4; 2]%N.          (* a.y.m *)
 Definition ex_b : path := [5; 6]%N.             (* b.e   *)
 Definition ex_ops : list op :=
   [OCreate; OSet 1 ex_p (VInt 1500) false; OSet 1 ex_b (VBool true) false].
-Definition f_with (k : nat) (t r s v : bool) : faults :=
-  {| f_apply := k; f_test := t; f_reload := r; f_startup := s; f_version := v |}.
+Definition f_with (k kr : nat) (t : bool) (r : nat) (s v : bool) : faults :=
+  {| f_apply := k; f_rollback := kr; f_test := t; f_reload := r; f_startup := s; f_version := v |}.
+Definition ex_mss : guard :=
+  {| g_mss := Some ([1;3], ex_p, 1512%Z)%N; g_sv := 7%N; g_cv := 8%N; g_hidden := []; g_sa := 9%N |}.
+Definition st_of (var : variant) := run var ex_reg no_guard (init_state empty_store) ex_ops.
 
-(* non-vacuity of C13_atomic: every failure point is reachable and rolls back something *)
+(* non-vacuity of C13_atomic for HEAD: every failure point is reachable and rolls back something — also
+   when the first Rollback call itself fails, the second is still made *)
 Example C13_atomic_nonvacuous :
-  let st := run Repaired ex_reg None (init_state empty_store) ex_ops in
-  snd (fst (do_commit Repaired ex_reg None st 1 (f_with 2 false false false false))) = RApplyFail /\
-  snd (fst (do_commit Repaired ex_reg None st 1 (f_with 0 true false false false))) = RFrrTest /\
-  snd (fst (do_commit Repaired ex_reg None st 1 (f_with 0 false true false false))) = RFrrReload /\
-  snd (fst (do_commit Repaired ex_reg None st 1 (f_with 0 false false true false))) = RStartupSave /\
-  rolled (snd (do_commit Repaired ex_reg None st 1 (f_with 0 false false true false))) =
-    [(ex_b, VBool true); (ex_p, VInt 1500)] /\
-  snd (fst (do_commit Repaired ex_reg (Some ([1;3], ex_p, 1512%Z)) st 1 no_faults))%N = RPrecommit.
+  let st := st_of FrrDefect in
+  snd (fst (do_commit FrrDefect ex_reg no_guard st 1 (f_with 2 0 false 0 false false))) = RApplyFail /\
+  snd (fst (do_commit FrrDefect ex_reg no_guard st 1 (f_with 0 0 true 0 false false))) = RFrrTest /\
+  snd (fst (do_commit FrrDefect ex_reg no_guard st 1 (f_with 0 0 false 1 false false))) = RFrrReload /\
+  snd (fst (do_commit FrrDefect ex_reg no_guard st 1 (f_with 0 0 false 0 true false))) = RStartupSave /\
+  snd (do_commit FrrDefect ex_reg no_guard st 1 (f_with 0 1 false 0 true false)) =
+    [EApply ex_p (VInt 1500) true; EApply ex_b (VBool true) true; EFrrTest; EFrrReload; EFrrReload;
+     ERollback ex_b (VBool true) false; ERollback ex_p (VInt 1500) true] /\
+  frr (fst (fst (do_commit FrrDefect ex_reg no_guard st 1 (f_with 0 0 false 0 true false)))) = Some (running st) /\
+  snd (fst (do_commit FrrDefect ex_reg ex_mss st 1 no_faults)) = RPrecommit.
 Proof. vm_compute. repeat split. Qed.
 Print Assumptions C13_atomic_nonvacuous.
 
-(* non-vacuity of C13_frame / C13_isolation: a commit succeeds and changes running *)
+(* non-vacuity of C13_frame / C13_isolation: a commit succeeds, changes running and loads the daemon *)
 Example C13_frame_nonvacuous :
-  let st := run Repaired ex_reg None (init_state empty_store) ex_ops in
-  let '(st', r, evs) := do_commit Repaired ex_reg None st 1 (f_with 0 false false false true) in
+  let st := st_of FrrDefect in
+  let '(st', r, evs) := do_commit FrrDefect ex_reg no_guard st 1 (f_with 0 0 false 0 false true) in
   r = ROk /\ get_leaf (running st') ex_p = Some (SInt 1500) /\ get_leaf (running st) ex_p = None /\
-  sessions st' = [] /\ lock st' = None /\ length (vmem st') = 1%nat /\ vfiles st' = [].
+  sessions st' = [] /\ lock st' = None /\ length (vmem st') = 1%nat /\ vfiles st' = [] /\
+  frr st' = Some (running st') /\ running_oid st' = 3%N /\ startup_oid st' = 4%N.
 Proof. vm_compute. repeat split. Qed.
 Print Assumptions C13_frame_nonvacuous.
 
-(* ---------------------------------------------------------------- what the code violates today *)
-(* startup-file write fails: Commit returns an error although running and startup were replaced,
-   and nothing is rolled back *)
+Example C13_idle_expiry_nonvacuous :
+  let st14 := run FrrDefect ex_reg no_guard (init_state empty_store) [OCreate; OTick 14] in
+  let st15 := run FrrDefect ex_reg no_guard (init_state empty_store) [OCreate; OTick 14; OTick 1] in
+  expire st14 = st14 /\ snd (do_create st14) = RLocked /\
+  sessions (expire st15) = [] /\ snd (do_create st15) = RId 2 /\
+  snd (do_set FrrDefect ex_reg st15 1 ex_p (VInt 1) false) = RNoSession.
+Proof. vm_compute. repeat split. Qed.
+Print Assumptions C13_idle_expiry_nonvacuous.
+
+(* ---------------------------------------------------------------- what /repo HEAD violates (known finding) *)
+(* the reload fails after the daemon has taken the candidate (f_reload = 2): HEAD rolls the handlers back and
+   leaves the datastores alone, but the daemon stays on a configuration that is neither what it had nor the
+   running one *)
+Theorem C13_daemon_refuted :
+  exists reg g ops id f st' r evs,
+  let st := run FrrDefect reg g (init_state empty_store) ops in
+  do_commit FrrDefect reg g st id f = (st', r, evs) /\ r = RFrrReload /\ persisted st' = persisted st /\
+  frr st' <> frr st /\ frr st' <> Some (running st).
+Proof.
+  exists ex_reg, no_guard, ex_ops, 1%N, (f_with 0 0 false 2 false false).
+  eexists; eexists; eexists. cbv zeta. split; [vm_compute; reflexivity|].
+  split; [reflexivity|]. split; [reflexivity|]. split.
+  - vm_compute. discriminate.
+  - intros E. vm_compute in E. discriminate.
+Qed.
+Print Assumptions C13_daemon_refuted.
+
+(* ---------------------------------------------------------------- what the tree violated before the fixes *)
+(* before 1761ed1 — startup-file write fails: Commit returns an error although running and startup were
+   replaced, and nothing is rolled back *)
 Theorem C13_atomic_refuted :
   exists reg g ops id f st' r evs,
   let st := run Defective reg g (init_state empty_store) ops in
   do_commit Defective reg g st id f = (st', r, evs) /\ r <> ROk /\
   running st' <> running st /\ startup st' <> startup st /\ rolled evs <> rev (applied_ok evs).
 Proof.
-  exists ex_reg, None, ex_ops, 1%N, (f_with 0 false false true false).
+  exists ex_reg, no_guard, ex_ops, 1%N, (f_with 0 0 false 0 true false).
   eexists; eexists; eexists. cbv zeta. split; [vm_compute; reflexivity|].
   split; [discriminate|]. split; [|split].
   - intros E. apply (f_equal (fun s => get_leaf s ex_p)) in E. vm_compute in E. discriminate.
@@ -154,37 +269,24 @@ Proof.
 Qed.
 Print Assumptions C13_atomic_refuted.
 
-(* version write fails: Commit returns an error after the commit has fully taken effect *)
-Theorem C13_atomic_version_refuted :
-  exists reg g ops id f st' r evs,
-  let st := run Defective reg g (init_state empty_store) ops in
-  do_commit Defective reg g st id f = (st', r, evs) /\ r = RVersionSave /\
-  running st' <> running st /\ sfile st' <> sfile st /\ sessions st' = [].
-Proof.
-  exists ex_reg, None, ex_ops, 1%N, (f_with 0 false false false true).
-  eexists; eexists; eexists. cbv zeta. split; [vm_compute; reflexivity|].
-  split; [reflexivity|]. split; [|split].
-  - intros E. apply (f_equal (fun s => get_leaf s ex_p)) in E. vm_compute in E. discriminate.
-  - vm_compute. discriminate.
-  - reflexivity.
-Qed.
-Print Assumptions C13_atomic_version_refuted.
-
-(* after that failed commit the session is still open and shares its configuration object with
-   running: a Set, which is not a commit, changes the running configuration *)
+(* ... and after that failed commit the session's object IS the running object (same object id — no flag):
+   a Set, which is not a commit, changes the running configuration *)
 Theorem C13_isolation_refuted :
   exists reg g ops id p v st' res,
   let st := run Defective reg g (init_state empty_store) ops in
+  (exists s, In s (sessions st) /\ s_oid s = running_oid st) /\
   do_set Defective reg st id p v false = (st', res) /\ res = ROk /\ running st' <> running st.
 Proof.
-  exists ex_reg, None, (ex_ops ++ [OCommit 1 (f_with 0 false false true false)]), 1%N, ex_p, (VInt 9000).
-  eexists; eexists. cbv zeta. split; [vm_compute; reflexivity|]. split; [reflexivity|].
-  intros E. apply (f_equal (fun s => get_leaf s ex_p)) in E. vm_compute in E. discriminate.
+  exists ex_reg, no_guard, (ex_ops ++ [OCommit 1 (f_with 0 0 false 0 true false)]), 1%N, ex_p, (VInt 9000).
+  eexists; eexists. cbv zeta. split.
+  - vm_compute. eexists. split; [left; reflexivity|reflexivity].
+  - split; [vm_compute; reflexivity|]. split; [reflexivity|].
+    intros E. apply (f_equal (fun s => get_leaf s ex_p)) in E. vm_compute in E. discriminate.
 Qed.
 Print Assumptions C13_isolation_refuted.
 
-(* a Set that fails in convertValue has already created containers; the next successful commit
-   publishes a container that is not a prefix of any path set in the session *)
+(* before 61c97e1 — a Set that fails in convertValue has already created containers; the next successful
+   commit publishes a container that is not a prefix of any path set in the session *)
 Theorem C13_frame_refuted :
   exists reg g ops id f st' evs c,
   let st := run Defective reg g (init_state empty_store) ops in
@@ -193,7 +295,7 @@ Theorem C13_frame_refuted :
   forall s, find_session (sessions (expire st)) id = Some s ->
   forall p, In p (map c_path (s_changes s)) -> ~ is_prefix c p.
 Proof.
-  exists ex_reg, None,
+  exists ex_reg, no_guard,
     [OCreate; OSet 1 ex_q (VStr [97]%N) false; OSet 1 ex_p (VInt 1500) false], 1%N, no_faults.
   eexists; eexists; exists [1; 4]%N. cbv zeta. split; [vm_compute; reflexivity|].
   split; [reflexivity|]. split; [reflexivity|].
@@ -221,11 +323,8 @@ Theorem C13_linearizable :
 Proof. exact Linearizable.mgr_ops_linearizable. Qed.
 Print Assumptions C13_linearizable.
 
-(* non-vacuity: a reachable quiescent configuration in which two Create calls overlap in real time (one is
-   granted, the other refused) and a GetRunning runs between the invocation and the response of a Commit
-   and still sees the old configuration *)
 Example C13_linearizable_nonvacuous :
-  exists c, Linearizable.m_reach Repaired Linearizable.lx_reg None Linearizable.lx_st0 Linearizable.lx_progs c /\
+  exists c, Linearizable.m_reach FrrDefect Linearizable.lx_reg no_guard Linearizable.lx_st0 Linearizable.lx_progs c /\
             Atomic.quiescent c /\ length (Atomic.c_hist c) = 10%nat /\
             get_leaf (running (Atomic.c_sh c tt)) Linearizable.lx_p = Some (SInt 1500).
 Proof.
@@ -233,68 +332,3 @@ Proof.
   exists c. repeat split; auto. rewrite H. reflexivity.
 Qed.
 Print Assumptions C13_linearizable_nonvacuous.
-
-(* ---------------------------------------------------------------- idle expiry (conf.go:817-832) *)
-(* Every API call first expires sessions idle for the limit (15 min) or longer.  In every reachable state:
-   expiry never touches a datastore; sessions that are not idle are left exactly as they are (the whole
-   state is unchanged); an idle session disappears together with its lock, so the next Create is granted
-   and every call naming the expired session is refused. *)
-Theorem C13_idle_expiry :
-  forall reg g r ops,
-  let st := run Repaired reg g (init_state r) ops in
-  persisted (expire st) = persisted st /\
-  ((forall s, In s (sessions st) -> (s_idle s <? idle_limit)%N = true) -> expire st = st) /\
-  (forall s, In s (sessions st) -> (s_idle s <? idle_limit)%N = false ->
-     sessions (expire st) = [] /\ lock (expire st) = None /\
-     snd (do_create st) = RId (next_id st + 1)%N /\
-     forall id, (forall p v vf, do_set Repaired reg st id p v vf = (expire st, RNoSession)) /\
-                (forall f, do_commit Repaired reg g st id f = (expire st, RNoSession, [])) /\
-                do_close st id = (expire st, RNoSession) /\ do_delete st id = (expire st, RNoSession)).
-Proof.
-  intros reg g r ops st. assert (HI : Inv st) by apply inv_run, inv_init.
-  split; [apply expire_persisted|]. split; [apply expire_alive|].
-  intros s Hin Ha. destruct (expire_idle _ _ HI Hin Ha) as [A B].
-  repeat split; auto.
-  - eapply expired_create; eauto.
-  - eapply expired_refused; eauto.
-  - eapply expired_refused; eauto.
-  - eapply (expired_refused Repaired reg g); eauto.
-  - eapply (expired_refused Repaired reg g); eauto.
-Qed.
-Print Assumptions C13_idle_expiry.
-
-(* a Set that finds its session refreshes the activity stamp (so does Delete and a failed Commit, by
-   [touch_state] in C13_atomic) *)
-Theorem C13_set_touches :
-  forall var reg st id p v vf st' r,
-  do_set var reg st id p v vf = (st', r) -> r <> RNoSession ->
-  forall s, In s (sessions st') -> s_id s = id -> s_idle s = 0%N.
-Proof. exact set_touches. Qed.
-Print Assumptions C13_set_touches.
-
-(* non-vacuity: 14 + 1 minutes of inactivity expire the session; 14 do not *)
-Example C13_idle_expiry_nonvacuous :
-  let st14 := run Repaired ex_reg None (init_state empty_store) [OCreate; OTick 14] in
-  let st15 := run Repaired ex_reg None (init_state empty_store) [OCreate; OTick 14; OTick 1] in
-  expire st14 = st14 /\ snd (do_create st14) = RLocked /\
-  sessions (expire st15) = [] /\ snd (do_create st15) = RId 2 /\
-  snd (do_set Repaired ex_reg st15 1 ex_p (VInt 1) false) = RNoSession.
-Proof. vm_compute. repeat split. Qed.
-Print Assumptions C13_idle_expiry_nonvacuous.
-
-(* ---------------------------------------------------------------- exactly what was set *)
-(* In every reachable state a successful Commit publishes exactly the previous running configuration
-   with the Sets of this session replayed on it in the order they were made (each Set = containers on the
-   way + the converted value at the leaf; failed Sets contribute nothing).  Together with C13_frame this
-   is "changes only what was set, and to what it was set". *)
-Theorem C13_commit_publishes_replay :
-  forall reg g r ops id f st' evs,
-  let st := run Repaired reg g (init_state r) ops in
-  do_commit Repaired reg g st id f = (st', ROk, evs) ->
-  exists s, find_session (sessions (expire st)) id = Some s /\
-            running st' = replay reg (running st) (s_changes s).
-Proof.
-  intros reg g r ops id f st' evs st H.
-  eapply commit_publishes_replay; eauto; [apply inv_run, inv_init | apply inv2_run; [apply inv_init | apply inv2_init]].
-Qed.
-Print Assumptions C13_commit_publishes_replay.
